@@ -367,7 +367,21 @@ func parserErrors(src []byte) string {
 
 type gen18 struct{ r *common.RNG }
 
-var identAtoms = append([]string{"p", "main", "x", "_x", "a1", "é", "Ünï", "foo_bar", "imports", "i", "importx", "_"}, unicodeIdents()...)
+var identAtoms = append(append([]string{"p", "main", "x", "_x", "a1", "é", "Ünï", "foo_bar", "imports", "i", "importx", "_"}, unicodeIdents()...), leadFirstIdents()...)
+
+// leadFirstIdents: for every UTF-8 lead byte that starts a letter, an identifier that STARTS with
+// such a letter (unicodeIdents wraps a third of its letters in ASCII)
+func leadFirstIdents() []string {
+	var out []string
+	seen := map[byte]bool{}
+	for _, l := range scriptLetters(false) {
+		if !seen[l.lead] {
+			seen[l.lead] = true
+			out = append(out, string(l.r))
+		}
+	}
+	return out
+}
 
 // unicodeIdents: identifiers made of letters chosen so that, together, their UTF-8 encodings use
 // every continuation byte value 0x80..0xBF in every position and every lead byte that starts a
@@ -605,6 +619,9 @@ func runC18(rn *runner) {
 		rn.caseC18([]byte(h), "hand", nil)
 		rn.caseC18(append(append([]byte{}, bomBytes...), h...), "hand+BOM", nil)
 	}
+	// identifiers over many scripts (a letter for every UTF-8 lead byte, first and later positions)
+	// as package name and import name, see c18scripts.go
+	runScripts(rn)
 	// every kind of syntax error at every reader position (quick: every other combination, the
 	// phase chosen by the seed; thorough: all)
 	stride := 2
